@@ -113,6 +113,16 @@ def gradient_is_derivative(pm, ctx):
                               "function of the predictions than the score returned alone", line=f.lineno, site=site + " (same score)")
             if status in ("exact", "tangent"):
                 ctx.ok("C02-g", site, status + (": " + detail if detail else ""))
+                if ctx.tier == "thorough":
+                    from ..e8_gemini import cross_check_instances
+                    try:
+                        what, ok_ = cross_check_instances(pm, cname, ovo)[0]
+                        if ok_:
+                            ctx.ok("C02-g", site + " [finite instances]", what)
+                        else:
+                            ctx.undecided_site("C02-g", site + " [finite instances]", "the expanded instances disagree with the symbolic verdict: normaliser unsound - " + what)
+                    except Unsupported as e:
+                        ctx.undecided_site("C02-g", site + " [finite instances]", f"cannot expand: {e}")
             elif status == "undecided":
                 ctx.undecided_site("C02-g", site, detail)
             else:
